@@ -211,10 +211,10 @@ func init() {
 			"has a case for every node kind, so it never prints its placeholder (R-EXHAUST/format), and reads every source-bearing field of every " +
 			"node type (R-FIELDCOV/format); every array/map literal node is registered in the layout table on every path that returns it (R-LAYOUTKEY); " +
 			"the text of a string literal reaches the output only through strconv.Quote (R-INDENTPAIR); parsed operand lists are never partly dropped (R-LISTUSE); " +
-			"the parser never steps over a token it has not examined (R-BLINDADV).",
+			"the parser never steps over a token it has not examined (R-BLINDADV); a binary expression parsed where white space separates elements is recorded and printed without spaces (R-WSSKEEP).",
 		NotDecided:  "Token-sequence equality, re-parse equality, comment placement inside multi-line literals, expression re-binding — these need the output text.",
 		Assumptions: []string{},
-		Rules:       []*Rule{ruleEOLState, exhaustRule("format", 25), fieldCovRule("format"), ruleLayoutKey, ruleNoInPlace, ruleIndentPair, ruleListUse, ruleBlindAdv},
+		Rules:       []*Rule{ruleEOLState, exhaustRule("format", 25), fieldCovRule("format"), ruleLayoutKey, ruleNoInPlace, ruleIndentPair, ruleListUse, ruleBlindAdv, ruleWSSKeep},
 	})
 }
 
